@@ -270,6 +270,7 @@ func (w *recWallet) SignTxWithPassphrase(a accounts.Account, p string, tx *types
 // CliqueSigner is looked up by aqua.StartMining through a type assertion on the wallet.
 func (w *recWallet) CliqueSigner() clique.SignerFn {
 	inner := w.Wallet.(interface{ CliqueSigner() clique.SignerFn }).CliqueSigner()
+	w.rec.note("CliqueSignerHandedOut", w.Wallet.Accounts()[0].Address, nil, "") // synchronous with aqua.StartMining
 	return func(a accounts.Account, h []byte) ([]byte, error) {
 		sig, err := inner(a, h)
 		w.rec.note("CliqueSigner", a.Address, err, sigToken(sig))
@@ -344,6 +345,7 @@ type world struct {
 
 	known   map[string]bool // signature tokens observed so far (wallet, pool, results)
 	ksAddrs map[common.Address]bool
+	sealSeen map[string]bool
 }
 
 func genesisFor(chain string) *core.Genesis {
@@ -969,6 +971,11 @@ func (w *world) observe(cs callSpec, before map[string]bool) (callResult, []find
 	var fs []finding
 	evs := w.rec.since(mark)
 	for _, e := range evs {
+		if e.OK && strings.HasPrefix(e.Via, "CliqueSigner") && w.cfg.Chain == "clique" {
+			// block sealing runs asynchronously once mining was started; it is reported by
+			// cliqueMethod for what it is, not attributed to whatever call happens to be in flight
+			continue
+		}
 		if e.OK {
 			fs = append(fs, finding{Kind: "wallet", Addr: e.Addr, Detail: e.Via, Token: e.Token})
 		}
@@ -1151,8 +1158,17 @@ func runWorker(cfg config) {
 		}
 		before := copySet(w.known)
 		t0 := time.Now()
+		cmark := w.rec.mark()
 		res, fs, evs := w.observe(cs, before)
 		out.TimeMS[cs.Method] += time.Since(t0).Microseconds()
+		if w.cfg.Chain == "clique" {
+			for _, e := range evs {
+				if e.Via == "CliqueSignerHandedOut" { // the call went through aqua.StartMining -> clique.Authorize
+					w.cliqueAfterCall(cs, cmark, out)
+					break
+				}
+			}
+		}
 		out.Evals++
 		out.Counters["calls"]++
 		out.Counters["calls_"+cs.Transport]++
@@ -1227,6 +1243,7 @@ func runWorker(cfg config) {
 		})
 	}
 
+	plainOnly := false // disruptive methods: every tuple on every transport, plain wire form only
 	runMethod := func(m method) {
 		ts, red := lat.tuples(m)
 		if red {
@@ -1249,6 +1266,9 @@ func runWorker(cfg config) {
 			// optional trailing arguments may also be omitted entirely: covered by `null`
 			for _, tr := range transports {
 				for _, v := range variantsFor(m) {
+					if plainOnly && v[0] != "plain" && v[0] != "subscribe" {
+						continue
+					}
 					evaluate(m, callSpec{Transport: tr, Variant: v[0], Wire: v[1], Method: m.wire(), Args: args, Tags: tags})
 				}
 			}
@@ -1274,11 +1294,7 @@ func runWorker(cfg config) {
 			out.Skipped = append(out.Skipped, m.wire()+" (crashed the worker earlier)")
 			continue
 		}
-		if w.cfg.Chain == "clique" {
-			w.cliqueMethod(m, runMethod, out)
-		} else {
-			runMethod(m)
-		}
+		runMethod(m)
 		if capped {
 			break
 		}
@@ -1308,8 +1324,19 @@ func runWorker(cfg config) {
 		return 0
 	}
 	sort.SliceStable(late, func(i, j int) bool { return rank(late[i].wire()) < rank(late[j].wire()) })
+	plainOnly = true
 	for _, m := range late {
-		if !thorough || capped || skipSet[m.wire()] || w.cfg.Chain == "clique" {
+		if skipSet[m.wire()] {
+			out.Skipped = append(out.Skipped, m.wire()+" (crashed the worker earlier)")
+			continue
+		}
+		if w.cfg.Chain == "clique" && thorough && !capped && (m.wire() == "miner_start" || m.wire() == "miner_stop") {
+			// the sealer configuration exists to show what starting the miner does there
+			out.Late = append(out.Late, m.wire())
+			runMethod(m)
+			continue
+		}
+		if !thorough || capped || w.cfg.Chain == "clique" {
 			out.Skipped = append(out.Skipped, m.wire())
 			continue
 		}
@@ -1363,14 +1390,16 @@ func (w *world) finish(out *workerOut, classes map[string]bool, signerSeen map[s
 	os.Exit(0)
 }
 
-// cliqueMethod: on the clique chain the block sealer signs with the unlocked keystore key once
-// mining is started. Calls are made as usual; when a call leaves the miner running, wait for the
-// sealer's signature, record the method, and stop mining again.
-func (w *world) cliqueMethod(m method, runMethod func(method), out *workerOut) {
-	mark := w.rec.mark()
-	was := w.aq.IsMining()
-	runMethod(m)
-	if !was && w.aq.IsMining() {
+// cliqueAfterCall: on the clique chain the block sealer signs with the unlocked keystore key once
+// mining is started. When a call leaves the miner running, wait (first time per method and transport)
+// for the sealer's signature, record it, and stop mining again.
+func (w *world) cliqueAfterCall(cs callSpec, mark int, out *workerOut) {
+	key := cs.Method + " via " + cs.Transport
+	if w.sealSeen == nil {
+		w.sealSeen = map[string]bool{}
+	}
+	if !w.sealSeen[key] {
+		w.sealSeen[key] = true
 		dl := time.Now().Add(5 * time.Second)
 		sealed := false
 		for time.Now().Before(dl) && !sealed {
@@ -1381,10 +1410,13 @@ func (w *world) cliqueMethod(m method, runMethod func(method), out *workerOut) {
 			}
 			time.Sleep(50 * time.Millisecond)
 		}
-		w.aq.StopMining()
-		time.Sleep(200 * time.Millisecond)
-		out.Sealer = append(out.Sealer, fmt.Sprintf("%s started the sealer; block signature by keystore key observed=%v", m.wire(), sealed))
+		out.Sealer = append(out.Sealer, fmt.Sprintf("%s (%s) started the block sealer; block signature by keystore key %s observed=%v", key, cs.Variant, addrUnlocked.Hex(), sealed))
 	}
+	for i := 0; i < 200 && !w.aq.IsMining(); i++ { // miner.Start runs in its own goroutine
+		time.Sleep(5 * time.Millisecond)
+	}
+	w.aq.StopMining()
+	time.Sleep(100 * time.Millisecond)
 }
 
 func envString(c config) string {
@@ -1524,8 +1556,12 @@ func TestCheck(t *testing.T) {
 	cfgs := configsFor(run.Thorough())
 	outs := make([]*workerOut, len(cfgs))
 	var crashers sync.Map
-	ev.ParallelFor(len(cfgs), func(i int) {
-		var skip []string
+	var skipMu sync.Mutex
+	var sharedSkip []string // methods already known to kill the node process (found by an earlier worker)
+	runCfg := func(i int) {
+		skipMu.Lock()
+		skip := append([]string(nil), sharedSkip...)
+		skipMu.Unlock()
 		for attempt := 0; attempt < 6; attempt++ {
 			wo, crash := spawn(cfgs[i], i, deadline, skip, "")
 			if wo != nil {
@@ -1538,9 +1574,21 @@ func TestCheck(t *testing.T) {
 			}
 			crashers.Store(parts[0], tail(parts[1], 600))
 			skip = append(skip, parts[0])
+			skipMu.Lock()
+			sharedSkip = append(sharedSkip, parts[0])
+			skipMu.Unlock()
 		}
 		ev.Broken("worker %s keeps dying", cfgs[i].Name)
-	})
+	}
+	first := 0
+	if run.Thorough() {
+		// the default environment runs first on its own: a method that kills the node process
+		// (the RPC server does not recover panics of multi-shot connections) is found once and skipped
+		// by the other workers instead of costing every one of them a restart
+		runCfg(0)
+		first = 1
+	}
+	ev.ParallelFor(len(cfgs)-first, func(i int) { runCfg(i + first) })
 
 	matrix := map[string]map[string]int{}
 	signers := map[string]map[string][]string{}
@@ -1573,7 +1621,7 @@ func TestCheck(t *testing.T) {
 			run.Set("disruptive_called_last", wo.Late)
 			run.Set("absent_per_transport_default_env", wo.Absent)
 			run.Set("failed_sign_attempts_default_env", wo.Attempts)
-		} else if !reflect.DeepEqual(uni, wo.Universe) {
+		} else if cfg.Chain == "pow" && !reflect.DeepEqual(uni, wo.Universe) {
 			ev.Broken("method universe differs between configurations %s and %s", cfgs[0].Name, cfg.Name)
 		}
 		if len(wo.Timeouts) > 0 {
